@@ -11,7 +11,11 @@ CHECK = {
                             "auto_anchor_geodetic", "auto_anchor_wgs84", "auto_anchor_after_reset",
                             "reanchor_without_reset", "reanchor_within_1m", "anchor_lon_exact_pi",
                             "anchor_antimeridian_near", "anchor_lat_limit", "anchor_south", "anchor_west",
-                            "scalar_overloads", "history_long_setanchor_run", "history_long_conversion_run"],
+                            "scalar_overloads", "history_long_setanchor_run", "history_long_conversion_run",
+                            "history_long_reset_cycle_run", "value_copy_construct", "value_copy_assign", "value_move_construct",
+                            "value_move_assign", "value_self_assign", "value_source_unaffected_by_copy", "argument_aliasing",
+                            "auto_anchor_on_own_anchor_reference", "rvalue_arguments", "lvalue_arguments", "far_points",
+                            "neighbour_interference", "pair_same_point_twice"],
     "required_oracles": ["state.is_anchored", "anchor.get_anchor", "transform.orthonormal", "transform.det_plus_one",
                          "axes.first_is_east_rad", "axes.second_is_north_rad", "axes.third_is_up_rad",
                          "transform.translation_is_anchor_ecef_m", "origin.anchor_maps_to_zero_m",
@@ -20,12 +24,15 @@ CHECK = {
                          "inverse.enu_ecef_enu_m", "inverse.ecef_enu_ecef_m", "inverse.enu_geodetic_enu_m",
                          "inverse.geodetic_enu_geodetic_m",
                          "model.toENU_geodetic_m", "model.toENU_wgs84_m", "model.toENU_ecef_m", "model.toECEF_m",
-                         "model.toWGS84_m", "fresh.same_as_new_converter_m", "oracle.selfcheck"],
+                         "model.toWGS84_m", "fresh.same_as_new_converter_m", "oracle.selfcheck",
+                         "stability.result_kept", "stability.frame_untouched_by_conversions", "value.copy_equals_source",
+                         "value.copy_converts_like_source", "interference.same_result_after_neighbours",
+                         "far.finite", "far.toECEF_vs_model_rel", "far.enu_ecef_enu_rel", "far.toENU_vs_model_rel"],
     "required_counters": ["loop_hook_calls", "operations", "conversions", "op_reset", "op_setAnchor",
                           "op_ENUConverter()", "op_ENUConverter(anchor)", "op_toENU(geodetic)", "op_toENU(wgs84)",
                           "op_toENU(ecef)", "op_toECEF", "op_toWGS84", "op_getEnuToEcefTransform",
                           "wgs84_auto_anchor_altitude_adopted",
-                          "long_run_setAnchor_calls", "long_run_conversion_calls"],
+                          "long_run_setAnchor_calls", "long_run_conversion_calls", "long_run_reset_cycles"],
     "rule": "case = one HISTORY of 5..40 operations on one ENUConverter, drawn from {ENUConverter(), ENUConverter(anchor), "
             "copy, setAnchor, setAnchor(getAnchor()), reset, toENU(geodetic) [auto-anchors when un-anchored], toENU(wgs84) "
             "[idem], toENU(ecef), toECEF (both overloads), toWGS84 (both overloads), isAnchored, getEnuToEcefTransform, "
@@ -40,7 +47,23 @@ CHECK = {
             "17 and 4113 modulo 8191 carry, inside such a history, a run of 66000..70000 setAnchor calls alternating between 2-3 "
             "anchors (isAnchored() compared after every call, frame + one conversion every 4096 calls and around the 255..257th / "
             "65535..65537th anchoring since the converter was last un-anchored) resp. 66000..70000 fully checked conversions, "
-            "each followed by one pass over every per-operation oracle (300..600 calls under valgrind); distinct = 64-bit hash of the operation sequence with all its numeric arguments; "
+            "each followed by one pass over every per-operation oracle (300..600 calls under valgrind); index 6000 modulo 8191 carries "
+            "33000..35000 cycles of reset() + anchoring (setAnchor / toENU(geodetic) / toENU(wgs84) in turn), flag compared after every "
+            "call, frame + conversion every 2048 cycles and around the 128th / 256th / 32768th cycle; "
+            "every result of the object under test is bound as returned (decltype(auto)), its value at call time is what the oracles "
+            "see, up to 6 are kept and re-read after every later operation, before the object is replaced and at the end of the case; "
+            "between two state changes the transform and the anchor must stay bit-identical; value semantics: copy/move construct, "
+            "copy/move assign over a target in another state, self-assign, with the source overwritten (reset / re-anchored / "
+            "auto-anchored) and destroyed before the history goes on with the copy, and a copy that is used, spoiled and destroyed "
+            "while the history goes on with the source; aliasing: setAnchor(getAnchor()), toENU(getAnchor()) anchored and "
+            "un-anchored (expected anchor = the value at call time), toENU(base sub-object of getAnchor()), "
+            "toENU(getEnuToEcefTransform().translation()), v = toENU(v) / v = toECEF(v), setAnchor(reference into a sibling that "
+            "then dies); arguments passed as lvalues, temporaries and std::move'd objects; the same conversion repeated after a "
+            "sibling converter, a copy of it, ECEF converters on two ellipsoids and the coordinate stream operators were used; "
+            "exact specials: anchor (0,0,0), +-0.0, denormal and 1e-310 latitudes / longitudes / heights / local coordinates, equal "
+            "components, whole degrees / radians / metres, powers of two, a pair made of the same point twice; far points: local "
+            "points of magnitude 1e5..1e300 m (the unchanged code stays finite up to about 5e307 m), affine conversions only, "
+            "checked relative to the magnitude; distinct = 64-bit hash of the operation sequence with all its numeric arguments; "
             "non-trivial = history with >=1 reset or re-anchoring of an anchored converter and >=3 conversions",
     "level_text": "exploration: 1e5 (quick) / 1e6 (thorough) generated operation histories are executed on the real ENUConverter "
                   "in lock step with a sequential model; after every operation isAnchored() is compared with the model, after every "
@@ -49,7 +72,9 @@ CHECK = {
                   "with the model frame, with its inverse conversions (1 mm) and with a fresh converter anchored at the same place "
                   "(1e-9 m), distances of point pairs are compared across frames; ASan+UBSan and the library's asserts watch the "
                   "same executions; about one history in 4000 contains a run of > 65536 setAnchor calls or conversions on one "
-                  "object (counter-width class)",
+                  "object (counter-width class); results are bound as returned and re-read later (stability), the converter is "
+                  "copied / moved / assigned with the source overwritten, arguments alias the converter's own getters, neighbouring "
+                  "facilities are used between two identical conversions",
     "level_note": ASAN_NOTE,
     "technique": "runtime monitoring: sanitizer build + lock-step sequential reference model + long-double oracle over generated "
                  "operation histories",
@@ -61,6 +86,12 @@ CHECK = {
                     "converter keeps the altitude of the anchor it had before reset(); counted, not alarmed on)",
                     "the transform of an un-anchored converter is not constrained by the statement and is not checked",
                     "absolute comparisons involving the geodetic<->ECEF conversion allow 2 mm (1 mm of C01 plus 1 mm of C02)",
+                    "points farther than 100 km / 10 km are outside the statement's quantifier: for them only toECEF / toENU(ecef) are "
+                    "exercised (never the geodetic conversions) and only finiteness, the round trip to 64 eps x (|p| + 6.4e6 m) and the "
+                    "model to 1e-12 x (|p| + 6.4e6 m) are demanded, under a violation kind of their own (far_point_mismatch)",
+                    "a moved-from converter is only destroyed, never used; self-move-assignment is not exercised",
+                    "references returned by getAnchor() / getEnuToEcefTransform() are live views of the converter: they are required "
+                    "to be unchanged only between two state-changing operations",
                     "g++ 12 ASan+UBSan runtime; asserts live (no -DNDEBUG)"],
 }
 
